@@ -419,7 +419,7 @@ class C09(Engine):
 		'(single vs list, order), exec must end with exactly the root result, nested runs must not disturb the outer frame, and a second run must equal a fresh procedure. distinct_nontrivial = distinct '
 		'(module, nesting point, depth, failed?) tuples plus distinct monitored (module, variant state) pairs; states = node classes visited and nesting depths')
 	quick_runs = 1800
-	thorough_runs = 12000
+	thorough_runs = 30000
 	quick_budget_s = 90.0
 	thorough_budget_s = 1500.0
 	components_real = ['Procedure (exec, stacks, __make_event, __emit)', 'Node.procedural / prop_keys / expandable properties of every node class', 'Nodes.expand', 'Py2Cpp handlers and Reflections/ProceduralResolver handlers (monitor mode)', 'the pipeline that loads the corpus modules']
